@@ -575,7 +575,10 @@ func C10(c *vlib.Ctx) {
 			continue
 		}
 		started++
-		for k := 0; k < perCfg; k++ {
+		phase := "start"
+		n := perCfg
+	probes:
+		for k := 0; k < n; k++ {
 			q, target := c10Request(r, routes)
 			req, err := l2.NewRequest(q.Method, target, []byte("b"), q.Remote)
 			if err != nil {
@@ -602,8 +605,8 @@ func C10(c *vlib.Ctx) {
 					break
 				}
 			}
-			c.Distinct("nontrivial", fmt.Sprintf("%d:%s:methods=%v", wantStatus, owner, len(wantAllow)))
-			wit := map[string]any{"config": txt, "request": map[string]any{"method": q.Method, "target": target, "host": q.Host, "headers": q.Header, "remote": q.Remote}, "status": resp.Status, "allow": resp.Header.Get("Allow")}
+			c.Distinct("nontrivial", fmt.Sprintf("%d:%s:methods=%v:%s", wantStatus, owner, len(wantAllow), phase))
+			wit := map[string]any{"config": txt, "request": map[string]any{"method": q.Method, "target": target, "host": q.Host, "headers": q.Header, "remote": q.Remote}, "status": resp.Status, "allow": resp.Header.Get("Allow"), "phase": phase}
 			var added []string
 			beforeIDs := map[string]bool{}
 			for _, e := range before {
@@ -644,6 +647,39 @@ func C10(c *vlib.Ctx) {
 			}
 			if ci < 2 && k < 2 {
 				c.Sample(wit)
+			}
+		}
+		// the route table after a reload: a refused reload (the new file also needs a
+		// restart) leaves the running table in force, an applied one switches to the
+		// table of the new file
+		if phase == "start" && ci%4 < 2 {
+			txt2, routes2 := c10Config(r)
+			if ci%4 == 0 {
+				txt2 = strings.Replace(txt2, "pull_api { listen 127.0.0.2:0", "pull_api { listen 127.0.0.9:0", 1)
+			}
+			_ = a.WriteConfig(txt2)
+			ok := a.Reload()
+			for try := 0; try < 8 && !ok && ci%4 == 1; try++ {
+				// most generated pairs differ in something that needs a restart
+				// (deliver routes, backends): try further candidates
+				txt2, routes2 = c10Config(r)
+				_ = a.WriteConfig(txt2)
+				ok = a.Reload()
+			}
+			c.Count("reloads", 1)
+			switch {
+			case ci%4 == 0 && !ok:
+				phase, n = "after_refused_reload", 40
+				c.Count("reloads_refused_as_expected", 1)
+				goto probes
+			case ci%4 == 1 && ok:
+				phase, n, routes, txt = "after_applied_reload", 40, routes2, txt2
+				c.Count("reloads_applied", 1)
+				goto probes
+			default:
+				// the second file did not compile / needed a restart for a generated
+				// difference (e.g. deliver routes appearing): nothing to compare
+				c.Count("reloads_not_comparable", 1)
 			}
 		}
 		a.Close()
